@@ -87,7 +87,7 @@ def interp(kind, events, path):
                 sys.stdout.flush(); sys.stderr.flush()
                 pid = os.fork()
                 if pid == 0:
-                    signal.alarm(30)
+                    signal.alarm(600)
                     os.close(r); child_fd = w
                     p_become(newpid); obs = []; reports = {}
                 else:
@@ -298,7 +298,7 @@ def fork_point_run(ctx, work, point, child_mode, n):
     parent = os.getpid()
     res = {}
     def child(r1, w1, r2, w2):
-        signal.alarm(30)
+        signal.alarm(600)
         out = {}
         try:
             os.close(r1); os.close(w2)
@@ -433,7 +433,17 @@ def run(ctx):
                 for mode in ('sessions-only', 'disconnect-first'):
                     if point == 'open' and mode == 'disconnect-first': continue     # db.disconnect() is refused inside db_session
                     try:
-                        fork_point_run(ctx, work, point, mode, n)
+                        try:
+                            fork_point_run(ctx, work, point, mode, n)
+                        except OSError:
+                            # pipe / process plumbing of the harness itself (e.g. a child killed by its watchdog on an overloaded
+                            # machine): not an observation about Pony — one retry, then an infrastructure error (exit 2)
+                            if os.getpid() != ROOT_PID: os._exit(1)
+                            ctx.count('infrastructure-retry'); n += 100
+                            fork_point_run(ctx, work, point, mode, n)
+                    except OSError:
+                        if os.getpid() != ROOT_PID: os._exit(1)
+                        raise
                     except Exception as e:
                         if os.getpid() != ROOT_PID: os._exit(1)
                         ctx.violation('the parent could not use the database around the fork', {'fork_point': point, 'child': mode, 'database': 'file-backed SQLite'},
